@@ -316,7 +316,7 @@ class _ResultPusher(mt.Thread):
         task['return_value'] = [t['return_value'] for t in self._cache[uid]]
 
         exit_codes           = [t['exit_code']    for t in self._cache[uid]]
-        task['exit_code']    = sorted(list(set(exit_codes)))[-1]
+        task['exit_code']    = max(exit_codes, key=abs)
 
         return True
 
